@@ -314,6 +314,46 @@ inline void defaultsCase(Ctx& c)
     }
 }
 
+// setCommonFlag / getCommonFlag with the one enumerator that covers two bits (CommonFlags::seg = 0x0C): "set" must read
+// back as set, "clear" as clear, from every prior flags byte, and no bit outside the mask may change.
+// (Which of the two bits a "set" turns on is not fixed by the statement and not demanded.)
+template <typename T>
+inline void segMaskOne(Ctx& c, const char* cls)
+{
+    using CF = ASAM::CMP::MessageHeader::CommonFlags;
+    for (int prior = 0; prior < 256; ++prior)
+        for (int v = 0; v < 2; ++v)
+        {
+            T o{};
+            o.setCommonFlags(static_cast<uint8_t>(prior));
+            uint64_t tsBefore = o.getTimestamp();
+            o.setTimestamp(0x1122334455667788ULL);
+            tsBefore = o.getTimestamp();
+            o.setCommonFlag(CF::seg, v != 0);
+            ++c.evaluations;
+            uint8_t after = o.getCommonFlags();
+            char b[200];
+            snprintf(b, sizeof b, "%s: flags byte 0x%02x, setCommonFlag(seg, %s) -> 0x%02x, getCommonFlag(seg)=%d", cls, prior, v ? "true" : "false", after, o.getCommonFlag(CF::seg));
+            if (c.prop == "C11")
+            {
+                if (o.getCommonFlag(CF::seg) != (v != 0))
+                    c.violation(std::string("C11:read-back-differs:") + cls + ".flag.seg", b, b);
+                if ((after & ~0x0C) != (prior & ~0x0C) || o.getTimestamp() != tsBefore)
+                    c.violation(std::string("C11:setter-changes-other-bits:") + cls + ".flag.seg", b, b);
+                // MessageHeader derives the segment type from the same bits; Packet keeps it in a separate member
+                if (std::is_same<T, ASAM::CMP::MessageHeader>::value && static_cast<uint8_t>(o.getSegmentType()) != (after & 0x0C))
+                    c.violation(std::string("C11:setter-changes-other-field:") + cls + ".flag.seg", b, b);
+            }
+            c.count("multi_bit_mask_flag_checks");
+        }
+    c.feature("fields_exercised", std::string(cls) + ".flag.seg(two-bit mask)");
+}
+inline void segMaskCase(Ctx& c)
+{
+    segMaskOne<ASAM::CMP::MessageHeader>(c, "MessageHeader");
+    segMaskOne<ASAM::CMP::Packet>(c, "Packet");
+}
+
 struct Index
 {
     std::vector<std::pair<size_t, size_t>> fields;  // (class, field)
@@ -334,13 +374,15 @@ inline long count(Ctx& c)
 {
     long single = static_cast<long>(index().fields.size()) * backgroundsFor(c.thorough());
     long seq = static_cast<long>(classes().size()) * (c.thorough() ? 4000 : 150);
-    return 1 + single + seq;
+    return 2 + single + seq;
 }
 inline void run(Ctx& c, long idx)
 {
     if (idx == 0)
         return defaultsCase(c);
-    --idx;
+    if (idx == 1)
+        return segMaskCase(c);
+    idx -= 2;
     long nb = backgroundsFor(c.thorough());
     long single = static_cast<long>(index().fields.size()) * nb;
     if (idx < single)
